@@ -72,3 +72,32 @@ def run(ctx):
         "scenarios also hold 2-3 instances in a list: references through self.l[k] (inline) and through self.l[self.sel] (always-on "
         "block, selector changed between calls)",
     ]
+    list_stream(ctx)
+
+
+def list_stream(ctx):
+    """foreach statements inside a dynamic block that calls refer to from their inline blocks, the lists growing between the calls:
+    every such call enforces the block over the list as it is at that call, a call without the reference does not enforce it"""
+    import listgen
+    from props import c04
+    rnd = random.Random("C06-lists-%d" % ctx.seed)
+    n = 50 if ctx.quick() else 1200
+    scs = [listgen.ListGen(random.Random(rnd.random()), dyn=True).scenario() for _ in range(n)]
+    obs, results, crashed = c04.evaluate(ctx, scs, "c06l")
+    ev = 0
+    for si, o in crashed:
+        core.add_violation(ctx, "library raised outside a randomize call on a list scenario with a dynamic block: %s" % str(o)[:300],
+                           {"scenario": scs[si], "observed": str(o)[:2000]})
+    for si, oi, code, res, rsz in results:
+        ev += 1
+        if code is None:
+            ctx.tie_broken.append("Coq evaluation failed for list scenario %d call %d" % (si, oi))
+        elif code & (2 | 4 | 8):
+            core.add_violation(ctx, "list scenario with a foreach inside a dynamic block: the call does not behave as 'class constraints + the "
+                                    "referenced dynamic block over the list as it is now' (bits %d; outcome %s)" % (code & (2 | 4 | 8), res["outcome"]),
+                               {"scenario": solve_common.brief(scs[si], oi), "observed": {k: res.get(k) for k in ("outcome", "err", "before", "values", "lists")}, "code": code})
+        elif code & 1:
+            ctx.tie_broken.append("model's lowering != recorded solver terms in list scenario with a dynamic block %r" % (solve_common.brief(scs[si], oi),))
+    ctx.coverage["evaluations"] += ev
+    ctx.coverage["list_stream"] = {"scenarios": n, "evaluations": ev,
+                                   "calls_referring_to_the_dynamic_block": sum(1 for s in scs for o in s["ops"] if o.get("inline") and o["inline"][0][0] == "dyn")}
